@@ -31,3 +31,65 @@
         lemma_params();
         lemma_derived_pk_same_bytes(xi, ETA as int, pk0, sk, pk1, out0@, out1@);
     }
+    // C11: the derived public key makes the same verification decision as the generated one, on every input
+    pub proof fn lemma_c11_behaviour_api(xi: Seq<u8>, pk0: PublicKey, sk: PrivateKey, pk1: PublicKey, message: Seq<u8>, ctx: Seq<u8>, oid: Seq<u8>, phm: Seq<u8>,
+            sig: [u8; SIG_LEN], res: bool)
+        requires KG::kg_post(xi, pk0, sk), sk.pk_of_post(pk1), pk0.verify_rel(message, ctx, oid, phm, sig, res),
+        ensures pk1.verify_rel(message, ctx, oid, phm, sig, res),
+    {
+        lemma_params();
+        let (a, s1, s2, pkb) = choose|a: [[T; L]; K], s1: [R; L], s2: [R; K], pkb: Seq<u8>| #[trigger] kg_wit(xi, ETA as int, pk0, sk, a, s1, s2, pkb);
+        assert(kg_wit(xi, ETA as int, pk0, sk, a, s1, s2, pkb));
+        let t1 = kg_t1(a, vec_ints(s1), vec_ints(s2));
+        assert(sk_coefs_ok(sk, ETA as int, vec_ints(s1), vec_ints(s2), kg_t0(a, vec_ints(s1), vec_ints(s2))));
+        assert(expand_a_rel(sk.rho@, a));
+        assert(pk_coefs_ok(pk1, t1));
+        let mu = spec_mu(pk0.tr@, message, ctx, oid, phm, false);
+        lemma_verify_spec_indep(res, pk0, pk1, t1, mu, sig@, BETA as int, GAMMA1 as int, GAMMA2 as int, OMEGA as int, TAU as int, LAMBDA_DIV4 as int);
+    }
+    // C09: a generated public key reloaded from its serialisation makes the same verification decision on every input
+    pub proof fn lemma_c09_pk_behaviour_api(xi: Seq<u8>, pk: PublicKey, sk: PrivateKey, ba: [u8; PK_LEN], pk2: PublicKey, message: Seq<u8>, ctx: Seq<u8>,
+            oid: Seq<u8>, phm: Seq<u8>, sig: [u8; SIG_LEN], res: bool)
+        requires KG::kg_post(xi, pk, sk), pk.sd_into_post(ba), PublicKey::sd_from_post(ba, &pk2), pk.verify_rel(message, ctx, oid, phm, sig, res),
+        ensures pk2.verify_rel(message, ctx, oid, phm, sig, res),
+    {
+        lemma_params();
+        let (a, s1, s2, pkb) = choose|a: [[T; L]; K], s1: [R; L], s2: [R; K], pkb: Seq<u8>| #[trigger] kg_wit(xi, ETA as int, pk, sk, a, s1, s2, pkb);
+        assert(kg_wit(xi, ETA as int, pk, sk, a, s1, s2, pkb));
+        let t1 = kg_t1(a, vec_ints(s1), vec_ints(s2));
+        assert(pk_coefs_ok(pk, t1));
+        assert forall|i: int, j: int| 0 <= i < K && 0 <= j < 256 implies #[trigger] field(pk_t1_bytes(ba@, i), 10, j) == field(pk_t1_bytes(pkb, i), 10, j) by {
+            assert(field(pk_t1_bytes(ba@, i), 10, j) == t1[i][j]);
+        }
+        lemma_pk_bytes_unique(ba@, pkb, K as int);
+        assert(pk2.tr@ == pk.tr@);
+        lemma_pk_rel_coefs(pk2, ba@);
+        let t1b = pk_t1_vec(ba@, K as int);
+        assert(t1b =~= t1) by {
+            assert forall|i: int| 0 <= i < K implies #[trigger] t1b[i] == t1[i] by { assert(t1b[i] =~= t1[i]); }
+        }
+        let mu = spec_mu(pk.tr@, message, ctx, oid, phm, false);
+        lemma_verify_spec_indep(res, pk, pk2, t1, mu, sig@, BETA as int, GAMMA1 as int, GAMMA2 as int, OMEGA as int, TAU as int, LAMBDA_DIV4 as int);
+    }
+    // C09: a private key reloaded from its serialisation returns the same signatures for the same randomness
+    pub proof fn lemma_c09_sk_behaviour_api(sk: PrivateKey, ba: [u8; SK_LEN], sk2: PrivateKey, message: Seq<u8>, ctx: Seq<u8>, oid: Seq<u8>, phm: Seq<u8>,
+            rnd: Seq<u8>, sig: [u8; SIG_LEN])
+        requires sk.sd_inv(), sk.sd_into_post(ba), PrivateKey::sd_from_post(ba, &sk2), sk.sign_with(message, ctx, oid, phm, rnd, sig),
+        ensures sk2.sign_with(message, ctx, oid, phm, rnd, sig),
+    {
+        lemma_params(); lemma_bitlen_consts();
+        let e = ETA as int;
+        let (s1, s2, t0) = choose|s1: Seq<Seq<int>>, s2: Seq<Seq<int>>, t0: Seq<Seq<int>>| #[trigger] sk_coefs_ok(sk, e, s1, s2, t0);
+        assert(sk_coefs_ok(sk, e, s1, s2, t0));
+        assert(sk_vecs_are(ba@, e, K as int, L as int, s1, s2, t0));
+        let v1 = sk_s1_vec(ba@, e, L as int); let v2 = sk_s2_vec(ba@, e, K as int, L as int); let v0 = sk_t0_vec(ba@, e, K as int, L as int);
+        assert(spec_bitlen(e + e) == spec_bitlen(2 * e));
+        assert(spec_bitlen(4095int + 4096int) == 13);
+        assert(v1 =~= s1) by { assert forall|i: int| 0 <= i < L implies #[trigger] v1[i] == s1[i] by { assert(v1[i] =~= s1[i]); } }
+        assert(v2 =~= s2) by { assert forall|i: int| 0 <= i < K implies #[trigger] v2[i] == s2[i] by { assert(v2[i] =~= s2[i]); } }
+        assert(v0 =~= t0) by { assert forall|i: int| 0 <= i < K implies #[trigger] v0[i] == t0[i] by { assert(v0[i] =~= t0[i]); } }
+        assert(sk_coefs_ok(sk2, e, s1, s2, t0));
+        let mu = spec_mu(sk.tr@, message, ctx, oid, phm, false);
+        assert(sk2.tr@ == sk.tr@);
+        lemma_sign_spec_indep(sig@, sk, sk2, e, s1, s2, t0, mu, rnd, BETA as int, GAMMA1 as int, GAMMA2 as int, OMEGA as int, TAU as int, LAMBDA_DIV4 as int);
+    }
